@@ -36,6 +36,16 @@ What is modelled, line by line from `iterative_parser.py` (`_consume`, `scan_byt
   `M.out`), then the `(child, False)` yields of phase B in order (`PM.out`); `_parse_forest` yields both kinds.
 * `place_repetition_shortcut(table, k)` for the last column after phase B (it only changes what the column holds at
   the end).
+* **`ParseState.cut_short`** (the repair of finding C19:F68, `PCfg.cutShort = true`; `false` is the parser without
+  it, where the attribute does not exist): `complete(state, …)` computes `cut_short = state.cut_short or not
+  state.finished()` after the covering cut, skips every `s` of `find_dot` with `s.cut_short` (`continue`: nothing is
+  built, nothing is added) and sets `s.cut_short = cut_short` on the advanced copy; `ParseState.__init__` sets it to
+  `False`, `copy()` (hence `next()`) carries it; `__hash__` / `__eq__` / `Column.add` do not look at it (a state that
+  differs from an admitted one in the flag alone is a duplicate).  In the first loop `complete` is only called for
+  finished states, so the flag of every state of phase A — every state of COMPLETE mode — is `False`
+  (`PSt.ofSt`, `PSt.ofInc`; the harness checks it on every recorded run); only the forced completions of phase B set
+  it.  (`place_repetition_shortcut` builds fresh `ParseState`s: the final shortcut drops the flag of a re-rooted
+  state; nothing reads it afterwards, the model's final chart `Col` has no flags.)
 
 Not modelled: `consume` called several times on one parse (incremental feeding: an incomplete state that is continued
 by more input), `starter_bit`, `hookin_parent`, computed repetitions, `use_implicit=True`.
@@ -82,9 +92,13 @@ structure PCfg where
   c : Cfg
   /-- partial match of a terminal in a column: target column and the partial leaf -/
   iscan : Term → Nat → Option (Nat × Leaf)
+  /-- the source has `ParseState.cut_short` (read by `harness/translate_earley.py`: `Generated/Earley.lean`,
+      `Gen.cutShort`); a parameter of prefix mode only — the chart machine `c` of COMPLETE mode does not have it -/
+  cutShort : Bool
 
-def mkPCfg (G : Grammar) (v : Variant) (pi : PInput) (start : String) (pred : Nat → NT → List (List ESym)) : PCfg :=
-  { c := mkCfg G v pi.inp start pred, iscan := iscanV v pi }
+def mkPCfg (G : Grammar) (v : Variant) (cs : Bool) (pi : PInput) (start : String)
+    (pred : Nat → NT → List (List ESym)) : PCfg :=
+  { c := mkCfg G v pi.inp start pred, iscan := iscanV v pi, cutShort := cs }
 
 /-! ### states of the last column in the end-of-input phase -/
 
@@ -96,6 +110,9 @@ structure PSt where
   inc : Bool := false
   /-- `state.covering(last column)`: derivations `(nonterminal, finished?)` -/
   cov : List (NT × Bool) := []
+  /-- `cut_short`: the state was advanced over a derivation that ends with the input (always `false` for a source
+      without the attribute) -/
+  cut : Bool := false
 
 /-- `state.finished()`: `self._dot >= len(self.symbols) and not self.is_incomplete` -/
 def PSt.fin (s : PSt) : Bool := s.item.finished && !s.inc
@@ -103,7 +120,8 @@ def PSt.fin (s : PSt) : Bool := s.item.finished && !s.inc
 /-- a state of the chart read in the last column `L` (`covering(L)`; in COMPLETE-mode completions every derivation
     is that of a finished rule) -/
 def PSt.ofSt (L : Nat) (s : St) : PSt :=
-  { item := s.item, kids := s.kids, inc := false, cov := ((coverAt s L).getD []).map (fun x => (x, true)) }
+  { item := s.item, kids := s.kids, inc := false, cov := ((coverAt s L).getD []).map (fun x => (x, true)),
+    cut := false }
 
 def PSt.ofInc (L : Nat) (s : St) : PSt := { PSt.ofSt L s with inc := true }
 
@@ -121,8 +139,9 @@ def cutP (p : Policy) (t : PSt) : Bool :=
   | .acyclic => t.cov.contains (t.item.lhs, t.fin)
   | _ => false
 
-/-- one iteration of the loop of `complete(t, table, L)` on the state `s` of column `t.position` -/
-def advanceP (p : Policy) (L : Nat) (t s : PSt) : PSt :=
+/-- one iteration of the loop of `complete(t, table, L)` on the state `s` of column `t.position` (one that is not
+    skipped); `cs`: the source has `cut_short` -/
+def advanceP (cs : Bool) (p : Policy) (L : Nat) (t s : PSt) : PSt :=
   let params : Option String × Option String :=
     match s.item.sym? with
     | some (.n _ a r) => (a, r)
@@ -138,7 +157,8 @@ def advanceP (p : Policy) (L : Nat) (t s : PSt) : PSt :=
       -- `if state.position == k: spanning.update(s.covering(k))`
       ++ (if t.item.origin = L then s.cov else [])
     | _ => []
-  { item := s.item.next, kids := kids, inc := false, cov := cov }
+  -- `cut_short = state.cut_short or not state.finished()` … `s = s.next()`; `s.cut_short = cut_short`
+  { item := s.item.next, kids := kids, inc := false, cov := cov, cut := cs && (t.cut || !t.fin) }
 
 /-! ### the machine -/
 
@@ -231,7 +251,10 @@ def stepB (pc : PCfg) (pm : PM) : PRes :=
   | some (t, j) =>
     match (listOf pm L t)[j]? with
     | none => .next { pm with frame := none }
-    | some s => .next { addLast c.policy pm (advanceP c.policy L t s) with frame := some (t, j + 1) }
+    | some s =>
+      -- `if s.cut_short: continue`
+      if pc.cutShort && s.cut then .next { pm with frame := some (t, j + 1) }
+      else .next { addLast c.policy pm (advanceP pc.cutShort c.policy L t s) with frame := some (t, j + 1) }
   | none =>
     match pm.last[pm.idx]? with
     | none =>
